@@ -31,7 +31,7 @@ class C09(ObjCheck):
             "Non-trivial = a failing call whose template is valid up to a position >= 1 (a prefix could have been applied), or a fault case in which "
             "the injected failure fired and the call returned an error. " + "")
     essential_labels = {"template_invalid_at_pos>0": 100, "views_checked": 500, "fault_cases_call_failed": 40}
-    rule_fault = ("Fault leg: for the C16 scenario (two tokens, private key, multi-buffer data object, certificate) and 9 object-management calls, ONE "
+    rule_fault = ("Fault leg: for the C16 scenario (two tokens, private key, multi-buffer data object, certificate) and 22 kinds of calls (object management and the key-generation / unwrap / derive paths), ONE "
                   "file-system operation of the call - chosen among the operations a fault-free traced run of the same call performs - is made to fail "
                   "(once, or sticky = the disk stays full; errno by operation or ENOSPC/EIO/EACCES/EMFILE). When the call then returns an error, the view "
                   "through fresh sessions of the same process AND the view of a fresh process on the directory must equal the view before the call.")
